@@ -176,6 +176,9 @@ func RegisterCandidate(native *native.NativeService) ([]byte, error) {
 	if err != nil {
 		return utils.BYTE_FALSE, fmt.Errorf("registerCandidate, peerPubkey format error: %v", err)
 	}
+	if hex.EncodeToString(peerPubkeyPrefix) != params.PeerPubkey {
+		return utils.BYTE_FALSE, fmt.Errorf("registerCandidate, peerPubkey must be lower-case hex")
+	}
 	//get black list
 	blackList, err := native.GetCacheDB().Get(utils.ConcatKey(contract, []byte(BLACK_LIST), peerPubkeyPrefix))
 	if err != nil {
